@@ -455,6 +455,7 @@ func init() {
 	checks["C12"] = func(p *Program, r *Report) {
 		checkNames(p, r)
 		checkFsSubset(p, r, []string{"NAMECHECK-GATE"}, map[string]int{"NAMECHECK-GATE": 2})
+		checkTxView(p, r)
 		// a name that was deleted stays deleted: a compaction above the bottom of the
 		// stack reads the raw view and keeps tombstones (otherwise the ref they shadow
 		// comes back to life next to refs created under or above it since)
@@ -474,7 +475,7 @@ func init() {
 		}
 		r.Engines = []string{"pathsim", "dtable", "fsproto"}
 		r.Explanation = "Narrow structural clauses of the name-conflict rule: the component validator rejects exactly the components \"\", \".\" and \"..\" (decision table over all valuations); an addition is accepted only after its name was validated, the lookup for refs below name+\"/\" answered no, and an ancestor walk that ends only at the empty name found no ref at any level; the check returns nil unvalidated only when SkipNameCheck is set and otherwise validates the refs read back from the new table from its first key; every path of Addition.Add that renames a table into place passed the name check for that very file; the stack view consulted by the check hides deleted refs (merged seek returns a suppressing merged iterator)."
-		r.NotDecided = []string{"soundness and completeness of the rule over histories", "the cross-table check inside one multi-table Addition (the pinned tree validates each table against the stack only)", "the lookups' handling of same-transaction additions and deletions"}
+		r.NotDecided = []string{"soundness and completeness of the rule over histories", "how a multi-table Addition is checked across its tables beyond the structural condition TX-VIEW (the pinned tree validates each table against the stack only: known finding)", "the lookups' handling of same-transaction additions and deletions"}
 		r.Assumptions = []string{"path.Split/strings.TrimSuffix compute the parent directory (library semantics)"}
 	}
 }
@@ -637,4 +638,85 @@ func phiCarriesResult(p *Program, st *State, want bool, callees map[string]bool,
 // of whose incoming values are the ok result of Iterator.NextRef/NextLog.
 func exhaustedThroughPhi(p *Program, st *State) bool {
 	return phiCarriesResult(p, st, false, map[string]bool{"(*Iterator).NextRef": true, "(*Iterator).NextLog": true}, 0, true) != nil
+}
+
+// TX-VIEW (C12): a transaction may consist of several tables.  A table of the
+// transaction has to be checked against what the transaction has put in place
+// before it, not only against the stack: the name check called from the
+// Addition's Add must be handed the transaction (or something read from it)
+// - a check that only sees the stack cannot notice "a" in the first table and
+// "a/b" in the second.  Decided by data dependence on the SSA form: some
+// argument of the call that reaches the addition validator is the
+// receiver of Add itself or is computed from one of its slice fields (the lists
+// of tables of the transaction).
+func checkTxView(p *Program, r *Report) {
+	addT := p.namedType("Addition")
+	val := p.MustFunc("validateRefRecordAddition")
+	n := 0
+	for _, f := range p.Funcs {
+		if f.Parent() != nil || f.Signature.Recv() == nil || !recvIsT(f, addT) || len(f.Params) == 0 {
+			continue
+		}
+		recv := f.Params[0]
+		// depends(v): v is computed from the receiver without going through its *Stack field only
+		memo := map[ssa.Value]int{}
+		var dep func(v ssa.Value) bool
+		dep = func(v ssa.Value) bool {
+			if v == ssa.Value(recv) {
+				return true
+			}
+			if s, ok := memo[v]; ok {
+				return s == 1
+			}
+			memo[v] = 0
+			res := false
+			switch x := v.(type) {
+			case *ssa.FieldAddr:
+				if x.X == ssa.Value(recv) {
+					// only the transaction's table lists count (not tr.stack, not counters)
+					ft := x.Type().(*types.Pointer).Elem()
+					_, isSlice := ft.Underlying().(*types.Slice)
+					res = isSlice
+					break
+				}
+				res = dep(x.X)
+			case ssa.Instruction:
+				for _, op := range x.Operands(nil) {
+					if *op != nil && dep(*op) {
+						res = true
+					}
+				}
+			}
+			if res {
+				memo[v] = 1
+			}
+			return res
+		}
+		for _, b := range f.Blocks {
+			for _, ins := range b.Instrs {
+				ci, ok := ins.(ssa.CallInstruction)
+				if !ok {
+					continue
+				}
+				cal := ci.Common().StaticCallee()
+				if cal == nil || cal.Pkg != f.Pkg || !(cal == val || reachesCallee(p, cal, funcKey(val), 2)) {
+					continue
+				}
+				n++
+				sees := false
+				for _, a := range ci.Common().Args {
+					if dep(a) {
+						sees = true
+					}
+				}
+				key := funcKey(f) + " / the name check sees the transaction's earlier tables"
+				if !sees {
+					r.violate("TX-VIEW", key, p.pos(ci.Pos()), "the name check of a table added by a transaction is given the stack only: tables the same transaction has already put in place are not consulted, so \"a\" in one table and \"a/b\" in the next are both accepted and committed together", nil)
+				} else {
+					r.ok("TX-VIEW", key, "the check is handed the transaction or state read from it")
+				}
+			}
+		}
+	}
+	r.floor("TX-VIEW", n, 1, "name-check calls in methods of the Addition")
 }
